@@ -294,10 +294,12 @@ class Request(Message):
             done = data[:2] == b"\r\n"
 
             if idx < 0 and not done:
-                self.get_data(unreader, buf)
-                data = buf.getvalue()
+                # only an unterminated header block counts against the buffer
+                # limit, never body or pipelined bytes received along with it
                 if len(data) > self.max_buffer_headers:
                     raise LimitRequestHeaders("max buffer headers")
+                self.get_data(unreader, buf)
+                data = buf.getvalue()
             else:
                 break
 
